@@ -58,6 +58,10 @@ def hierarchy(h, spec):
     top.m0 = mid(**{"p_" + p: nets[p] for p in ports})
     top.m1 = mid(**{"p_" + p: nets[p] for p in ports})
     top.d = mk_prim(h, spec)(**{p: nets[p] for p in ports})  # an equal, separately created call
+    if spec[0] == "Mos":
+        kw2 = dict(spec[1])
+        kw2["mult"] = kw2.get("mult", 1) + 4  # same device, same size, another multiplier - in the same compile
+        top.d2 = mk_prim(h, (spec[0], kw2))(**{p: nets[p] for p in ports})
     top.keep = h.R(r=2)(p=nets[ports[0]], n=nets[ports[-1]])
     return top, mid
 
@@ -163,6 +167,27 @@ def _one(item):
     r = check_params(pdk, spec, insts[0].of)
     if r:
         return ("bad", r)
+    if spec[0] == "Mos" and "d2" in top.instances and not hasattr(top.instances["d2"].of, "prim"):
+        kw2 = dict(spec[1])
+        kw2["mult"] = kw2.get("mult", 1) + 4
+        r = check_params(pdk, (spec[0], kw2), top.instances["d2"].of)
+        if r:
+            return ("bad", "second transistor differing only in its multiplier: " + r)
+    # a size given alone: the other dimension must be the one a fully defaulted device gets
+    if spec[0] in ("Mos", "Res2", "Res3", "Cap2", "Cap3") and (("w" in spec[1]) != ("l" in spec[1])):
+        try:
+            bare = {k: v for k, v in spec[1].items() if k not in ("w", "l")}
+            t2, m2 = hierarchy(h, (spec[0], bare))
+            mod.compile(t2)
+            other = "l" if "w" in spec[1] else "w"
+            pa, pb = insts[0].of.params, m2.instances["x"].of.params
+            ga = pa.get(other) if isinstance(pa, dict) else getattr(pa, other, None)
+            gb = pb.get(other) if isinstance(pb, dict) else getattr(pb, other, None)
+            if ga != gb:
+                return ("bad", f"only {('w' if other == 'l' else 'l')} given: defaulted {other} is {ga!r}, but a fully defaulted device gets {gb!r}")
+            given = "w" if other == "l" else "l"
+        except Exception as e:
+            return ("bad", "fully defaulted twin could not be compiled: " + short_exc(e)[:100])
     # export + netlists
     try:
         pkg = h.to_proto(top)
@@ -231,7 +256,7 @@ def items_for(tier):
         g = golden(pdk)
         # by model name, right and wrong terminal counts, sizes given / defaulted, multipliers
         for r in g.get("mos", []):
-            for extra in ({}, {"w": "2.5", "l": "0.5"}, {"mult": 3}, {"nf": 2, "w": "4"}):
+            for extra in ({}, {"w": "2.5", "l": "0.5"}, {"mult": 3}, {"nf": 2, "w": "4"}, {"w": "2.5"}, {"l": "0.75"}):
                 if pdk in ("sample", "asap7") :
                     kw = {"tp": r["tp"]}
                     if r.get("vth"):
@@ -251,6 +276,9 @@ def items_for(tier):
                     out.append((pdk, (cls, kw), "once"))
                     if cls in ("Res2", "Res3", "Cap2", "Cap3", "Diode") and r["terminals"] == {"Res2": 2, "Res3": 3, "Cap2": 2, "Cap3": 3, "Diode": 2}[cls]:
                         out.append((pdk, (cls, dict(kw, w="3", l="1.5")), "two_pdks"))
+                        if cls != "Diode":
+                            out.append((pdk, (cls, dict(kw, w="3")), "once"))
+                            out.append((pdk, (cls, dict(kw, l="1.5")), "once"))
         # unknown model names
         if pdk in ("sky130", "gf180"):  # the PDKs that document selection by model name
             for cls in ("Mos", "Res2", "Cap3", "Diode", "Bipolar"):
@@ -284,7 +312,12 @@ def attempt(label, fn):
     except Exception as e:
         out[label] = "raised " + type(e).__name__ + ": " + str(e)[:60].replace("\n", " ")
 import hdl21.pdk.sample_pdk as sample
-if scenario == "one":
+if scenario == "grow":
+    attempt("default_with_one", lambda m: h.pdk.compile(m))
+    import sky130_hdl21
+    attempt("default_after_second_registered", lambda m: h.pdk.compile(m))
+    out["default_is_none"] = h.pdk.default() is None if hasattr(h.pdk, "default") else "n/a"
+elif scenario == "one":
     attempt("default", lambda m: h.pdk.compile(m))
     attempt("by_name", lambda m: h.pdk.compile(m, pdk="hdl21.pdk.sample_pdk.pdk"))
     attempt("by_module", lambda m: h.pdk.compile(m, pdk=sample.pdk))
@@ -378,7 +411,12 @@ def run(ctx):
     for k in ("by_name", "by_module", "by_package", "default_after_set_default"):
         if r2.get(k) != "compiled":
             ctx.violation(dict(model="", pdk="registry", prim="-", select="several:" + k, what=str(r2.get(k))[:40], exc=""), dict(registry="several", results=r2), f"hdl21.pdk.compile {k}: {r2.get(k)}")
-    ctx.fam("registry", scenarios=2)
+    r3 = registry_scenario("grow")
+    ctx.count(states=len(r3), transitions=len(r3), traces_validated_against_impl=len(r3))
+    if r3.get("default_with_one") != "compiled" or not str(r3.get("default_after_second_registered", "")).startswith("raised RuntimeError"):
+        ctx.violation(dict(model="", pdk="registry", prim="-", select="grow", what=str(r3.get("default_after_second_registered"))[:40], exc=""), dict(registry="grow", results=r3),
+                      "after a second PDK is registered, compile() without a PDK must report the ambiguity (not keep using the first): " + str(r3))
+    ctx.fam("registry", scenarios=3)
     # logic cells
     libs = ["sky130_hdl21.digital_cells.high_density", "sky130_hdl21.digital_cells.high_speed", "sky130_hdl21.digital_cells.low_leakage", "sky130_hdl21.digital_cells.low_power",
             "sky130_hdl21.digital_cells.low_speed", "sky130_hdl21.digital_cells.medium_speed", "gf180_hdl21.digital_cells.seven_track", "gf180_hdl21.digital_cells.nine_track"]
